@@ -8,11 +8,11 @@ CAP = {"quick": 300, "thorough": 800}
 
 CONFIG = {
     # property: (root kinds quick, root kinds thorough, analysis parts, needs presentations)
-    "C05": (("1a", "2n"), ("1a", "1n", "2n", "2a"), ("conv",)),
-    "C06": (("1a", "1n", "2n"), ("1a", "1n", "2n", "2a"), ("conv", "sets")),
-    "C07": (("1a", "2n"), ("1a", "1n", "2n", "2a"), ("conv", "sets")),
+    "C05": (("1a", "2n", "2a"), ("1a", "1n", "2n", "2a"), ("conv",)),
+    "C06": (("1a", "1n", "2n", "2a"), ("1a", "1n", "2n", "2s", "2a"), ("conv", "sets")),
+    "C07": (("1a", "2n", "2s"), ("1a", "1n", "2n", "2s", "2a"), ("conv", "sets")),
     "C08": (("1a",), ("1a", "1n", "2n"), ("conv", "sets", "params")),
-    "C12": (("1a", "2n"), ("1a", "1n", "2n"), ("conv", "sets", "prim", "orig")),
+    "C12": (("1a", "2n"), ("1a", "1n", "2n", "2s"), ("conv", "sets", "prim", "orig")),
     "C15": (("1a", "1n"), ("1a", "1n", "2n"), ("conv",)),
 }
 
@@ -138,6 +138,6 @@ def describe(prop, tier, seed, extra_rule="", extra_assumptions=()):
         "nontrivial_rule": "distinct well-conditioned roots actually explored (root kinds %s)" % (kinds,),
         "bounds": {"root_kinds": list(kinds), "roots_listed": n, "atom_cap": CAP[tier], "symmetry_tol": symfam.TOL, "generators": labels[1:], "generic_row": seed % 4},
         "assumptions": ["crystals larger than the atom cap are skipped and counted (too_large)", "roots whose space group is not stable over tol/10..tol*10 in an independent spglib search are discarded and counted (ill_conditioned)",
-                        "root kinds: 1a = one occupied position + general-position anchor, 1n/2n = one/two occupied positions without anchor (possibly a supergroup), 2a = two positions + anchor"] + list(extra_assumptions),
+                        "root kinds: 1a = one occupied position + general-position anchor, 1n/2n = one/two occupied positions without anchor (possibly a supergroup), 2s = one letter occupied twice by one species with different parameters, 2a = two positions + anchor"] + list(extra_assumptions),
         "exhaustive": True,
     }
